@@ -7,6 +7,7 @@
 (c) in coap_oscore_decrypt_pdu the result of cose_encrypt0_decrypt is tested: every non-NULL return reached after the
     call has the result known > 0.
 Roles are found semantically (returned variable / plaintext argument), not by name."""
+import collections
 from core.prog import strip, walk, ap, key, short, const_int, is_null_const
 from core.psts import Env, solve, relevance, apply_generic, INF
 
@@ -139,3 +140,95 @@ def run(run, P):
     solve(g, Env(), on_event2, None, keys2, R2, key_fn=lambda e: (e.ts.get('dec'), tuple(sorted((v, e.intf(v)[0] >= 1) for v in dv))))
     run.instance('R-OSC-SPLIT', '%s: %d accepting return visit(s)' % (DEC, nret[0]))
     run.require(nret[0] > 0, 'R-OSC-SPLIT: no accepting return in %s()' % DEC)
+
+
+# ---------------------------------------------------------------------------------------------------------------
+FLAG_FUNCS = ('coap_oscore_new_pdu_encrypted_lkd', 'coap_oscore_decrypt_pdu')
+
+
+def run_flag_reach(run, P):
+    """R-OSC-SPLIT (flags): the protect / unprotect functions steer the RFC 8613 steps with local flags (doing_observe,
+    doing_resp_observe, ...).  A flag that is declared with a constant, assigned a different value somewhere in the function and
+    tested in a branch condition must be able to HAVE that other value at the test: some assignment other than the initialiser
+    reaches it (reaching definitions over the CFG).  A test that only the initialiser reaches is vacuous -- the assignment it was
+    meant to see comes too late, e.g. the Observe check that makes a notification use a fresh Partial IV instead of the request's
+    nonce (same key and nonce for different plaintexts otherwise)."""
+    run.rule('R-OSC-SPLIT')
+    nf = 0
+    for fn in FLAG_FUNCS:
+        if not P.has(fn):
+            if run.fixture_mode:
+                continue
+            run.require(False, 'anchor %s() of R-OSC-SPLIT(flags) not found' % fn)
+        f = P.func(fn)
+        B = f['B']
+        # flags: locals declared with a constant initialiser
+        init = {}
+        for b, ev in P.events(f):
+            t = ev['e']
+            if t.get('k') == 'decl':
+                for d in t['d']:
+                    if 'init' in d and const_int(d['init']) is not None and d.get('w') and not d.get('p'):
+                        init['v%d' % d['id']] = (const_int(d['init']), d.get('n'), b['id'])
+        if not init:
+            continue
+        # definitions per block (last one wins inside a block; order inside a block handled by position)
+        defs = collections.defaultdict(list)      # var -> [(block, index, is_other)]
+        for b in f['blocks']:
+            for i, ev in enumerate(b['elems']):
+                t = ev['e']
+                v = None
+                if t.get('k') == 'asg' and ap(t['l']) in init:
+                    v = ap(t['l'])
+                    other = not (t.get('op') == '=' and const_int(t['r']) == init[v][0])
+                    defs[v].append((b['id'], i, other))
+                elif t.get('k') == 'un' and t.get('op') in ('++', '--') and ap(t.get('e')) in init:
+                    defs[ap(t['e'])].append((b['id'], i, True))
+        # address taken (&flag passed to a callee): may be set anywhere after -> not judged
+        addr = set()
+        for b, ev in P.events(f):
+            for x in walk(ev['e']):
+                if isinstance(x, dict) and x.get('k') == 'un' and x.get('op') == '&' and ap(x.get('e')) in init:
+                    addr.add(ap(x['e']))
+        flags = [v for v in init if any(o for (_b, _i, o) in defs.get(v, ())) and v not in addr]
+        # forward reachability between blocks
+        succ = dict((b['id'], [s for s in b['succ'] if s is not None]) for b in f['blocks'])
+
+        def reach_from(bid):
+            seen = set()
+            work = list(succ.get(bid, ()))
+            while work:
+                x = work.pop()
+                if x in seen:
+                    continue
+                seen.add(x)
+                work.extend(succ.get(x, ()))
+            return seen
+        rcache = {}
+        for v in flags:
+            others = [(b0, i0) for (b0, i0, o) in defs[v] if o]
+            reads = []
+            for b in f['blocks']:
+                c = (b.get('term') or {}).get('cond')
+                if c is not None and any(isinstance(x, dict) and x.get('k') == 'var' and ap(x) == v for x in walk(c)):
+                    reads.append(b)
+            for b in reads:
+                nf += 1
+                ok = False
+                for (b0, i0) in others:
+                    if b0 == b['id']:
+                        ok = True      # same block: the terminator comes after every element
+                        break
+                    if b0 not in rcache:
+                        rcache[b0] = reach_from(b0)
+                    if b['id'] in rcache[b0]:
+                        ok = True
+                        break
+                run.instance('R-OSC-SPLIT', '%s: flag %s tested at %s' % (fn, init[v][1], b['term']['loc'].rsplit(':', 1)[-1]))
+                run.oblige('R-OSC-SPLIT', ok, '%s:flag-reach:%s' % (fn, init[v][1]))
+                if not ok:
+                    run.violation('R-OSC-SPLIT', fn, b['term']['loc'], 'flag-tested-before-set:%s' % init[v][1],
+                                  'the condition tests the flag `%s`, but no assignment other than its initialiser (%d) can reach this point: the step that sets it comes later in the '
+                                  'function, so the test is vacuous and the RFC 8613 step it steers (fresh Partial IV / nonce for an Observe notification, ...) is never taken here'
+                                  % (init[v][1], init[v][0]), [])
+    run.require(nf >= 4 or run.fixture_mode, 'R-OSC-SPLIT(flags): fewer than 4 flag tests found in %s' % (FLAG_FUNCS,))
